@@ -286,6 +286,7 @@ func (h *Hist) X(tz int, args ...string) *Trans {
 	for _, o := range h.cfg.Oracles {
 		vs = append(vs, o(t)...)
 	}
+	vs = append(vs, orReaders(t)...)
 	if h.cfg.AfterStep != nil {
 		vs = append(vs, h.cfg.AfterStep(h, t)...)
 	}
@@ -903,7 +904,11 @@ func (h *Hist) step() {
 	case "reflog":
 		h.X(tz, "reflog")
 	case "ls-files":
-		h.X(tz, "ls-files", "-s")
+		if r.chance(2, 3) {
+			h.X(tz, "ls-files", "-s")
+		} else {
+			h.X(tz, "ls-files")
+		}
 	case "rev-parse":
 		n := "HEAD"
 		if b, ok := h.pickBranch(); ok && r.chance(1, 2) {
